@@ -123,6 +123,42 @@ fn path(rng: &mut Rng, kind: u64, len: usize) -> (Vec<Pt3>, bool, bool) {
                 Pt3::new(r * t.sin(), 0.0, -r * t.cos())
             }).collect(), false, true)
         }
+        5 => {
+            // polyline with bends and exactly evenly spaced collinear runs (integer coordinates):
+            // legs along ±X ±Y ±Z and in-plane diagonals, 2..5 equal steps each
+            let dirs = [
+                Pt3::new(1.0, 0.0, 0.0), Pt3::new(0.0, 1.0, 0.0), Pt3::new(0.0, 0.0, 1.0), Pt3::new(-1.0, 0.0, 0.0),
+                Pt3::new(0.0, -1.0, 0.0), Pt3::new(1.0, 1.0, 0.0), Pt3::new(0.0, 1.0, 1.0), Pt3::new(1.0, 0.0, -1.0),
+            ];
+            let mut p = Pt3::new(0.0, 0.0, 0.0);
+            let mut v = vec![p];
+            let mut last = 99usize;
+            while v.len() < len.max(5) {
+                let mut k = rng.below(dirs.len() as u64) as usize;
+                if k == last || (last < 99 && dirs[k] + dirs[last] == Pt3::new(0.0, 0.0, 0.0)) {
+                    k = (k + 1) % dirs.len();
+                }
+                last = k;
+                let step = dirs[k] * (rng.range(1, 4) as f64 * 4.0);
+                for _ in 0..rng.range(2, 5) {
+                    p = p + step;
+                    v.push(p);
+                }
+            }
+            (v, false, false)
+        }
+        6 => {
+            // a closed path given with its first point repeated at the end (a hand-written loop, or a
+            // sampled closed curve): the closing ring then joins two coincident rings
+            let r = rng.uniform(3.0, 6.0);
+            let n = len.max(6);
+            let mut v: Vec<Pt3> = (0..n).map(|i| {
+                let t = i as f64 / n as f64 * std::f64::consts::TAU;
+                Pt3::new(r * t.cos(), r * t.sin(), 0.0)
+            }).collect();
+            v.push(v[0]);
+            (v, true, false)
+        }
         _ => {
             // random walk (may self-intersect: closedness only)
             let mut p = Pt3::new(0.0, 0.0, 0.0);
@@ -192,7 +228,7 @@ pub fn generate(rng: &mut Rng, thorough: bool, out: &mut Out) {
                 out.case(q, r);
             }
             4 => {
-                let (pk, pl) = (rng.below(5), rng.range(2, 30) as usize);
+                let (pk, pl) = (rng.below(8), rng.range(2, 30) as usize);
                 let (pa, closed, gentle) = path(rng, pk, pl);
                 let prof = shrink(&prof, rng.uniform(0.1, 0.4));
                 let twist = match rng.below(4) {
